@@ -317,7 +317,11 @@ def check(tier, seed):
                                   {"op": ops[m], "impl": run_impl(ops[m])}))
     extra = {"exhaustive_part": f"nibble sequences <= {3 if tier == 'quick' else 4} x 2 flags; bit strings <= {9 if tier == 'quick' else 13}; all first bytes"}
     if tier == "thorough":
-        rc, out = C.run(["bash", "-c", "cd " + C.COQ + " && coqchk -silent -o -Q theories PyTrie PyTrie.Properties.C16 2>&1 | tail -40"], 3000)
+        mods = " ".join(f"PyTrie.Properties.C{i:02d}" for i in range(1, 19)) + " PyTrie.Properties.Findings"
+        rc, out = C.run(["bash", "-c", "cd " + C.COQ + " && coqchk -silent -o -Q theories PyTrie " + mods + " 2>&1 | tail -40"], 7200)
+        if rc != 0 or "Axioms: <none>" not in " ".join(out.split()):
+            R.notes.append("coqchk did not report 'Axioms: <none>' for the whole development")
+            R.coq_errors.append("coqchk: " + out[-1500:])
         extra["coqchk"] = out[-3000:]
     return R.finish(RULE, extra_cov=extra)
 
